@@ -6,6 +6,7 @@ import pathlib
 import re
 import shutil
 import subprocess
+import time
 import warnings
 
 from harness import lib
@@ -207,10 +208,12 @@ def evaluate(ctx, items, stream):
     """items: list of (pattern codes, strings, note). Runs the implementation, the engines,
     the property oracle and the in-Coq correspondence. Returns list of indices with a
     correspondence break."""
+    t0 = time.time()
     results = []
     B = 5000
     for k in range(0, len(items), B):
         results += lib.impl_call("utf16.py", [p for p, _s, _n in items[k:k + B]], timeout=1200)
+    t_impl = time.time() - t0
 
     stats = {"parse_err": 0, "parse_exc": 0, "fix_exc": 0, "ok": 0, "changed": 0,
              "strings": 0, "orig_matches": 0, "astral_strings": 0, "engine_rejects": 0}
@@ -258,7 +261,9 @@ def evaluate(ctx, items, stream):
             node_jobs.append([res["render"], [t[1] for t in entry["tests"]]])
         prepared.append(entry)
 
+    t0 = time.time()
     node_out = run_node(ctx, node_jobs)
+    t_node = time.time() - t0
     if node_out is not None:
         for idx, answers in zip(node_index, node_out):
             for t, a in zip(prepared[idx]["tests"], answers):
@@ -295,7 +300,11 @@ def evaluate(ctx, items, stream):
                                  {"pattern": show(pat), "string": show(s), "string_codes": s},
                                  {"fixed": show(entry["render"]), "orig_matches": mo,
                                   "fixed_matches_units_python": mf, "fixed_matches_units_node": mj},
-                                 stream)
+                                 stream,
+                                 f"PYTHONPATH={lib.REPO} {lib.PY} -c \"import re; from aas_core_codegen.jsonschema.main "
+                                 f"import fix_pattern_for_utf16 as f; p='{show(pat)}'; s='{show(s)}'; "
+                                 f"u=''.join(map(chr,{units})); "
+                                 f"print(bool(re.fullmatch(p,s)), bool(re.fullmatch(f(p),u)))\"")
                 continue
             if "new" in reported:
                 continue
@@ -328,12 +337,15 @@ def evaluate(ctx, items, stream):
         impl = "None" if entry["fixed"] is None else f"(Some {G.coq_union(entry['fixed'])})"
         coq_cases.append(f"({G.coq_union(entry['orig'])}, {impl}, [{tests}])")
         coq_index.append(idx)
+    t0 = time.time()
     bad, _log = lib.run_cases(ctx.work, "cases_" + stream, HEADER, CASE_TYPE, "bad", coq_cases,
-                              shard=250)
+                              shard=120)
+    stats["seconds"] = {"impl": round(t_impl, 1), "node": round(t_node, 1),
+                        "coq": round(time.time() - t0, 1)}
     bad_items = [coq_index[i] for i in bad]
-    for idx in bad_items[:10]:
+    for k_bad, idx in enumerate(bad_items[:12]):
         entry = prepared[idx]
-        model = lib.coq_eval(
+        model = "(model output shown for the first 2 disagreements of a stream only)" if k_bad >= 2 else lib.coq_eval(
             ctx.work, "show", HEADER,
             f"let o := {G.coq_union(entry['orig'])} in (accepted_union o, fix_utf16 o, "
             f"map (fun t : tcase => match t with (s,u,_,_,_) => (enc16 s, matchesb o s) end) "
@@ -392,12 +404,12 @@ def streams(ctx: lib.Ctx) -> None:
     #    an input on which the property itself fails
     neigh = []
     for src, bad in ((evaluate_items, bad0), (rnd, bad1), (bnd, bad2)):
-        for idx in bad[:15]:
+        for idx in bad[:4]:
             pat = src[idx][0]
             res = lib.impl_call("utf16.py", [pat])[0]
             if res.get("parse") != "ok":
                 continue
-            strs = G.strings_for(rng, res["orig"], 150, lone_surrogates=False)
+            strs = G.strings_for(rng, res["orig"], 120, lone_surrogates=False)
             neigh.append((pat, strs, "neighbourhood"))
     if neigh:
         evaluate(ctx, neigh, "neighbourhood")
